@@ -9,7 +9,8 @@ from vf.models import insn_roundtrip as rt
 
 CHECK = dict(
     id="C16", level="exploration",
-    rule=("16-byte candidates from the shared instruction corpus (random bytes, stratified opcode "
+    rule=("16-byte candidates from the shared instruction corpus: a seed-independent walk over every class of "
+          "each decoder table (fixed prefix classes x ModRM forms on x86) plus seed-dependent random bytes, stratified opcode "
           "enumeration, decoder-table templates with random free fields, curated vectors of test/arch "
           "with bit flips) decoded by mn.dis in every arch/mode; the printed text is parsed back with "
           "mn.fromstring, printed, assembled and re-decoded; distinct = distinct (arch/mode, mnemonic, "
@@ -20,11 +21,12 @@ CHECK = dict(
     exhaustive={"quick": False, "thorough": False},
     technique="runtime monitoring: print -> parse -> print / assemble -> decode round trip on decoded instructions",
 )
-PER_ARCH = {"quick": 2000, "thorough": 100000}
+PER_ARCH = {"quick": 100, "thorough": 400}      # seed-dependent candidates per arch/mode
+WALK = {"quick": (1, 8), "thorough": (1, 4)}      # table walk: (rounds, stride)
 
 
 def shards(tier, seed, scale):
-    return rt.shards(tier, seed, scale, PER_ARCH)
+    return rt.shards(tier, seed, scale, PER_ARCH, WALK)
 
 
 def run_shard(params, rec):
